@@ -151,4 +151,9 @@ def dCyclicHeaderStyle : Doc :=
   root [pathItem "/p" [op [] (.node .response { flags := ["hasDescription"] }
     [("headers", cyclicHeader [] { strs := [("key", "f"), ("style", "matrix")] })])]]
 
+/-- the attributes of `{type: object, required: [id, pw], properties: {id: {type: string}, pw: {type: string, writeOnly: true}}}` -/
+def aSecret : Attrs :=
+  { lists := [("type", ["object"]), ("required", ["id", "pw"]), ("props", ["id", "pw"]), ("roProps", []), ("woProps", ["pw"])],
+    flags := ["simple", "objSimple"] }
+
 end KinModel.DocValidate.W
